@@ -510,6 +510,9 @@ func (e *Enc) mayReachHeap(t types.Type, depth int) bool {
 	if e.DB.Immutable[typeStr(t)] {
 		return false
 	}
+	if e.DB.Handles[typeStr(t)] {
+		return true
+	}
 	if _, ok := e.TI.opaqueSort(t); ok {
 		return false
 	}
